@@ -170,4 +170,10 @@ class Attribute(UnicodeMixin):
 
     def __unicode__(self):
         """XML string representation."""
-        return '%s="%s"' % (self.qname(), self.value and self.value.escape())
+        value = self.value and self.value.escape()
+        if value:
+            # Written as character references as any XML parser would
+            # otherwise normalize them to spaces (XML 1.0, section 3.3.3).
+            value = value.replace("\t", "&#9;").replace("\n", "&#10;").replace(
+                "\r", "&#13;")
+        return '%s="%s"' % (self.qname(), value)
